@@ -403,7 +403,7 @@ impl Driver for C12 {
             }
             if ok_routes == 2 {
                 out.nontrivial(hash_str(&lin_text));
-                if case == 0 && out.unit < 3 {
+                if out.report.samples.is_empty() && out.unit < 16 {
                     out.sample(json!({"model_text": model_text, "linear_text": lin_text}));
                 }
             }
